@@ -648,3 +648,36 @@ for _k in ("numpy.all", "numpy.ndarray.all"):
 for _k in ("numpy.any", "numpy.ndarray.any"):
     FUNCS[_k] = _any2
 TRUSTED["numpy.all/any(axis=1)"] = "row-wise conjunction / disjunction over the columns"
+
+
+# ------------------------------------------------------------------ arrays of rank >= 3: only their shape is modelled
+class ShapedV:
+    """an n-dimensional array of which only .shape (non-negative ints) is known; any other use is unsupported"""
+
+    def __init__(self, shape):
+        self.shape = tuple(shape)
+
+
+from ..spec import Type as _Type
+
+
+class TShaped(_Type):
+    def __init__(self, ndim):
+        self.ndim = ndim
+
+    def fresh(self, ctx, name):
+        dims = [ctx.fresh("%s_dim%d" % (name, d), Int) for d in range(self.ndim)]
+        for d in dims:
+            ctx.assume(d >= 0)
+        return ShapedV(dims)
+
+
+@hook("getattr")
+def _shaped_attr(i, v, name, node, fr):
+    if isinstance(v, ShapedV):
+        if name == "shape":
+            return v.shape
+        if name == "ndim":
+            return len(v.shape)
+        raise Unsupported("attribute %s of an array whose contents are not modelled" % name, node)
+    return NotImplemented
